@@ -8,8 +8,8 @@ Printed precision (what "equal" means for a printed number; the statement cannot
   csv   pandas writes the shortest text that round-trips a float  -> equal within TOL_CSV relative (measured 0.0)
   md    tabulate formats floats with '.{N}g', N = --output-significant-digits (default 6); columns that also hold text
         are printed in full                                         -> |printed - x| <= 0.5 * 10**(1-N) * |x|
-  json  pandas' default double_precision=10: ten DECIMALS (round half up), exponent form with 15 digits outside
-        [1e-15, 1e16)                                               -> |printed - x| <= 0.5e-10 (+ 1e-15 |x|)
+  json  pandas' default double_precision=10: ten DECIMALS (round half up); outside [1e-15, 1e16) exponent form with
+        ten significant digits                                      -> |printed - x| <= 0.5e-10 (+ 1e-15 |x|), resp. 0.5e-9 |x|
         non-finite numbers become null.
 The json rule above is the *number check*.  Separately, a json value that carries fewer significant digits than
 min(--output-significant-digits, the documented default 6) is reported under its own mechanism key
@@ -280,8 +280,8 @@ def cmp_cell(raw, v, fmt, osd):
     if fmt == "json":
         if x == 0.0 or 1e-15 <= abs(x) < 1e16:
             tol = JSON_ABS * JSON_SLACK + 1e-15 * abs(x)
-        else:
-            tol = 1e-14 * abs(x)
+        else:  # exponent form, '%.10g': ten significant digits
+            tol = 0.5e-9 * abs(x) * JSON_SLACK
         dev = err / tol
         sig = err / abs(x) if (x != 0.0 and 1e-15 <= abs(x) < 1e16) else 0.0
         return (None if dev <= 1.0 else f"printed {raw!r}, API {x!r} (diff {err:.3g} > ten-decimal rounding)"), "num", dev, sig
@@ -351,6 +351,9 @@ def _selfcheck():
     t, _ = extract_tables(df2.to_json(), "json")
     r = compare_table(t[0], df2, 6, False)
     assert r["problems"] == [] and len(r["sigloss"]) == 1 and r["sigloss"][0][0] == "Re(Z) (ohm)"
+    df3 = pd.DataFrame({"Value": [9.686953298858742e16, 7.706720202625787e-17, 1.234567890123e-300]})
+    t, _ = extract_tables(df3.to_json(), "json")
+    assert compare_table(t[0], df3, 6, False)["problems"] == [], t
     t, _ = extract_tables(df2.iloc[:, :1].to_csv(index=False), "csv")
     assert compare_table(t[0], df2, 6, False)["problems"][0][0] == "columns"
     bad = df2.copy()
